@@ -10,7 +10,8 @@ W=$(mktemp -d /tmp/confwt.XXXXXX); rmdir "$W"
 git -C /repo worktree add -q --detach "$W" HEAD || exit 9
 DEMO_PATH=$(python3 -c 'import json,sys; print(json.load(open(sys.argv[1]))["demo_path_in_repo"])' "$SRC/meta.json")
 DEMO_CMD=$(python3 -c 'import json,sys; print(json.load(open(sys.argv[1]))["demo_cmd"])' "$SRC/meta.json")
-DEMO_FILE=$(ls "$SRC" | grep -v -e meta.json -e patch.diff | head -1)
+DEMO_FILE=$(basename "$DEMO_PATH")
+[ -f "$SRC/$DEMO_FILE" ] || DEMO_FILE=$(ls "$SRC" | grep -v -e meta.json -e patch.diff | head -1)
 applies=no; suite=fail; demo_clean=fail; demo_patched=pass; build=fail
 git -C "$W" apply --check "$SRC/patch.diff" 2>/dev/null && applies=yes
 if [ $applies = yes ]; then
